@@ -128,12 +128,20 @@ class recording(object):
         return False
 
 
+_HANGS = [0]
+
+
 def attempt(fn):
+    """run an order function / a wrapper placer under a CPU limit (a call takes milliseconds): 10 s, at most 2 s
+    once 4 calls of this run did not return, 0.5 s after 12 - a change that makes `_cuthill_mckee` loop for ever
+    hangs hundreds of calls, and the run must still end with its verdict"""
     from harness import common
+    lim = 10 if _HANGS[0] < 4 else (2 if _HANGS[0] < 12 else 0.5)
     try:
-        with common.cpu_limit(10):      # a call takes milliseconds
+        with common.cpu_limit(lim):
             return {"ok": fn()}
     except common.ImplHang as e:
+        _HANGS[0] += 1
         return {"err": "DidNotReturn", "msg": str(e)}
     except Exception as e:      # noqa - every exception type is part of the observation
         return {"err": type(e).__name__}
@@ -407,8 +415,9 @@ def eval_cases(ctx, cases):
             else:
                 ctx.tag("orders:%s:%s" % (name, res["err"]))
                 if res["err"] == "DidNotReturn":
-                    bad[name] = ("did-not-return", "%s did not return: %s (the model of the sequential placer terminates on "
-                                 "every input)" % (name, res.get("msg")))
+                    bad[name] = ("did-not-return", "%s did not return: %s (the models of the order functions and of the "
+                                 "sequential placer terminate on every input: rcmPlace_terminates, bfsPlace_terminates, "
+                                 "hilbertPlace_terminates)" % (name, res.get("msg")))
                 elif res["err"] not in ("InsufficientResourceError", "InvalidConstraintError"):
                     if closed:
                         bad[name] = ("%s-raises-%s" % (name, res["err"]),
@@ -551,8 +560,11 @@ def run_orders(ctx):
     cases = []
     for i in range(n):
         cases.append(gen_case(ctx.rng, big=(not ctx.quick) and ctx.rng.random() < 0.15))
-    for i in range(0, len(cases), 100):
-        eval_cases(ctx, cases[i:i + 100])
+    from harness import c02
+    for i in range(0, len(cases), 25):
+        eval_cases(ctx, cases[i:i + 25])
+        if c02.hang_verdict_reached(ctx, _HANGS[0]):
+            break
 
 
 def replay_orders(ctx, payload):
